@@ -216,6 +216,13 @@ ReplyOf(r) == r     \* logged replies already have the specification's shape
 
 TraceTick == Live("tick") /\ now' = R.now /\ UNCHANGED <<uni, cfg, stable, tree, ing, next, sync, fee, cnt, known, flight, walks, bad, nad, lastq, upg>>
 
+\* canonical form of a request for comparison: the processed hashes as a set plus their number
+\* (C13 fixes which blocks are named, not their order)
+ReqCanon(r) ==
+  IF r.k = "initial"
+  THEN [k |-> "initial", anchor |-> r.anchor, processed |-> {r.processed[i] : i \in 1..Len(r.processed)}, n |-> Len(r.processed)]
+  ELSE r
+
 \* the ingest phase of the logged message: the specification follows the logged number of completed
 \* blocks and pause position (if the state says there is ingestion work) and checks admissibility
 IngestWork(m) == m.ing.b # 0 \/ StableChild(m) # 0
@@ -246,7 +253,7 @@ TraceHb ==
             IN IF f.st = "called" /\ R.req.k # "none" /\ ~Conformant(f.req, R.reply)
                THEN /\ UNCHANGED <<vars, nad, lastq, upg>> /\ bad' = TRUE
                     /\ Note("TOOLERROR", "hb.reply", "the harness delivered a reply that does not fit the request")
-               ELSE Land(f.m, <<<<"hb.request", f.req, reqJ>>, netOK>> \o IngestChecks(St, r, Budget(R.budget)))
+               ELSE Land(f.m, <<<<"hb.request", ReqCanon(f.req), ReqCanon(reqJ)>>, netOK>> \o IngestChecks(St, r, Budget(R.budget)))
 
 TraceHbSend ==
   /\ Live("hb_send")
@@ -258,7 +265,7 @@ TraceHbSend ==
             LET reqJ == IF R.req.k = "initial" THEN [k |-> "initial", anchor |-> R.req.anchor, processed |-> R.req.processed] ELSE R.req
                 m2 == IF f.st = "await" THEN [f.m EXCEPT !.flight = @ \cup {R.id}] ELSE f.m
                 stJ == IF f.st = "await" THEN "await" ELSE "done"
-            IN Land(m2, << <<"hb.request", f.req, reqJ>>, <<"hb.outcome", stJ, R.out>> >> \o IngestChecks(St, r, Budget(R.budget)))
+            IN Land(m2, << <<"hb.request", ReqCanon(f.req), ReqCanon(reqJ)>>, <<"hb.outcome", stJ, R.out>> >> \o IngestChecks(St, r, Budget(R.budget)))
 
 TraceHbReply ==
   /\ Live("hb_reply")
@@ -545,7 +552,14 @@ TraceSendTx ==
                                  R.cyc>> >>
                             \o PostChecks(m2, R.post))
 
+\* the driver could not continue (the code under test did something it cannot represent)
+TraceAnomaly ==
+  /\ Live("anomaly")
+  /\ UNCHANGED <<vars, nad, lastq, upg>> /\ bad' = TRUE
+  /\ Note("MISMATCH", "trap", <<"the driver was stopped by an unexpected panic", R.msg>>)
+
 TraceNext ==
+  \/ TraceAnomaly
   \/ TraceSendTx
   \/ TraceWalkStart \/ TraceWalkNext \/ TracePageRaw
   \/ TraceUniverse \/ Skip \/ TraceTick \/ TraceHb \/ TraceHbSend \/ TraceHbReply
